@@ -176,6 +176,7 @@ Devs == {"DevStaticServiceIgnoresDisabled", "DevDynSubscriptionIgnoresOnly", "De
 InvalidField(x, kind) ==
   \/ kind = "unknown"
   \/ kind \in QueryOnlyKinds /\ x.op # "query"
+  \/ kind = "__typename" /\ x.op = "subscription"       \* validation/visitor.rs visit_selection
   \/ kind \in {"__schema", "__type"} /\ x.s = "Disabled" /\ x.flavour = "dynamic"
 
 StaticOutcome(x, kind, dev) ==
